@@ -90,9 +90,7 @@ func init() {
 			BFS(c, &LightFamily{Nmax: pick(c, 4, 5), Prop: "C07", RemMode: "none", Base: b, Collect: "C01"}, 0)
 			BFS(c, &PartialFamily{Nmax: pick(c, 3, 4), TR: 63, UndoBud: 1, SetLimit: 2, Prop: "C09", Base: b, Collect: "C01"}, 0)
 		}
-		if c.Thorough() {
-			tallFamily(c, "C01")
-		}
+		tallFamily(c, "C01")
 	}
 
 	Checks["C02"] = func(c *Ctx) {
